@@ -101,6 +101,25 @@ def exotic(rng, specs):
     return out
 
 
+UNMODELLED = 'C06/unguarded-type-name-and-text-methods'
+
+
+def known_replays():
+    whats = {'meta_name_raises': 'a local whose metaclass has a raising __name__ property: variable_type.__name__ is read '
+                                 'unguarded (variable_to_string, process_child_nodes), the whole snapshot is lost',
+             'key_startswith_raises': 'a dict key that is an instance of a str subclass overriding startswith: var_modifiers '
+                                      'calls it unguarded, the whole snapshot is lost',
+             'str_returns_str_subclass': 'a __str__ that returns an instance of a str subclass with a raising __len__: '
+                                         'truncate_string calls len() / slices it unguarded, the whole snapshot is lost'}
+    return [(UNMODELLED, whats[k], {'objs': [{'t': 'unmodelled', 'k': k}, {'t': 'int', 'v': 5}],
+                                    'locals': [['v', 0], ['q', 1]], 'frame_type': 'single_frame', 'stream': 'unmodelled',
+                                    'actions': [{'limits': {}}]}) for k in sorted(cc.UNMODELLED)]
+
+
+def known_finding(case, obs):
+    return UNMODELLED if cc.has_unmodelled(case) else None
+
+
 def corpus():
     atoms = [{'t': 'atom', 'k': k} for k in ('bytes', 'datetime', 'deque', 'slotted', 'builtin', 'str_raises',
                                              'repr_raises', 'generator', 'enum', 'namedtuple')]
@@ -158,6 +177,11 @@ def run_impl(case):
 
 
 def oracle(case, obs):
+    if cc.has_unmodelled(case):
+        # outside the fault model of the heap (recorded finding): only "a snapshot per due tracepoint" is judged
+        n = len(obs.get('snapshots', []))
+        v = ['trace_call raised into the host: ' + obs['raised']] if 'raised' in obs else []
+        return v + ([f'{n} snapshots handed to the push service, {len(case["actions"])} are due'] if n != len(case['actions']) else [])
     if cc.has_outside(case):
         return []            # outside the claimed domain: recorded in the distribution only
     live = cc.live_of(obs)
